@@ -71,10 +71,19 @@ def parse_output(out):
     if "Status: ERROR" in out or "CBMC failed" in out or "out of memory" in out.lower():
         res["status"] = "ERROR"
     # concrete playback values: sequences of `vec![..]` lines inside concrete_vals
-    pb = re.search(r"let concrete_vals: Vec<Vec<u8>> = vec!\[(.*?)\n\s*\];", out, re.S)
-    if pb:
-        for v in re.finditer(r"vec!\[([0-9, ]*)\]", pb.group(1)):
-            res["playback"].append([int(x) for x in v.group(1).split(",") if x.strip()])
+    # one generated test per failed check AND per satisfied cover: the values of the first failed *check* are the counterexample
+    res["playbacks"] = []
+    for blk in re.finditer(r"/// Check for `(\w+)`: (.*?)\n.*?let concrete_vals: Vec<Vec<u8>> = vec!\[(.*?)\n\s*\];", out, re.S):
+        vals = [[int(x) for x in v.group(1).split(",") if x.strip()] for v in re.finditer(r"vec!\[([0-9, ]*)\]", blk.group(3))]
+        res["playbacks"].append(dict(kind=blk.group(1), description=blk.group(2).strip(), values=vals))
+    failing = [b for b in res["playbacks"] if b["kind"] != "cover"]
+    if failing:
+        res["playback"] = failing[0]["values"]
+    elif not res["playbacks"]:
+        pb = re.search(r"let concrete_vals: Vec<Vec<u8>> = vec!\[(.*?)\n\s*\];", out, re.S)
+        if pb:
+            for v in re.finditer(r"vec!\[([0-9, ]*)\]", pb.group(1)):
+                res["playback"].append([int(x) for x in v.group(1).split(",") if x.strip()])
     res["stubs"] = re.findall(r"- Stub: (.*)", out)
     return res
 
